@@ -127,7 +127,7 @@ func (p *PackageInfo) validate() error {
 
 type Import struct {
 	Url     string
-	Package *PackageInfo
+	Package *PackageInfo `yaml:"-"`
 }
 type Imports []*Import
 
@@ -153,7 +153,7 @@ func (imports *Imports) UnmarshalYAML(value *yaml.Node) error {
 type Version struct {
 	Label   string
 	Url     string
-	Package *PackageInfo
+	Package *PackageInfo `yaml:"-"`
 }
 
 type Versions []*Version
